@@ -176,7 +176,7 @@ for _k in SHAPE_KINDS:
     _mk_static(_k)
 
 
-@obligation("C04", "dynamic.setbased", functions=F, bounds="set-based prediction with 2 occupancies at int steps and 1 with a time interval")
+@obligation("C04", "dynamic.setbased", functions=F, bounds="set-based prediction with 2 occupancies at int steps and 1 with a time interval, stored in any of the 6 orders")
 def dyn_set(V):
     t0 = V.int("t0", 0)
     t = V.int("t")
@@ -188,7 +188,10 @@ def dyn_set(V):
     occs = [Occupancy(t0 + 1, Rectangle(5.0, 3.0, np.array([cs[0][0], cs[0][1]]))),
             Occupancy(t0 + 2, Circle(2.0, np.array([cs[1][0], cs[1][1]]))),
             Occupancy(Interval(t0 + 3, t0 + hi), Rectangle(6.0, 3.0, np.array([cs[2][0], cs[2][1]])))]
-    o = DynamicObstacle(8, ObstacleType.CAR, shape, init_state(t0, p, th), SetBasedPrediction(t0 + 1, occs))
+    import itertools
+
+    order = list(itertools.permutations(range(3)))[V.choice("stored_order", 6)]
+    o = DynamicObstacle(8, ObstacleType.CAR, shape, init_state(t0, p, th), SetBasedPrediction(t0 + 1, [occs[i] for i in order]))
     occ = o.occupancy_at_time(t)
     V.prove("set-based: no state except the initial one", (o.state_at_time(t) is None) if not bool(V.eq(t, t0)) else True)
     inside = V.And(t >= t0, t <= t0 + hi)
